@@ -18,6 +18,7 @@ type Obligation struct {
 	Name    string   // semantic name
 	Fn      string   // function key
 	Kind    string   // pre post inv safety frame assert decreases unsupported
+	As      string   // property whose clauses this obligation belongs to when it differs from the checked property
 	Tags    []string // property ids
 	Prefix  int      // number of assertions of enc that may be used
 	Reach   string   // block reach term
